@@ -782,7 +782,7 @@ CHECK = Check(
     modules=["WzVerif.Props.C06", "WzVerif.Props.C06T"],
     streams=[CodecPairs(), PreludeKernels()],
     assumptions=[
-        "quote_header_value (str values), unquote_header_value and is_byte_range_valid are regenerated from the source by tools/py2lean.py (Gen/PyFns_Http.lean) on every run and proved equal to the hand model for all inputs (Props/C06T); the CPython primitives the translated code calls (str.replace, indexing, slicing) are modelled in Util/PyPrelude.lean and validated by stream prelude-kernels",
+        "quote_header_value (str values), unquote_header_value, is_byte_range_valid and Range.to_header are regenerated from the source by tools/py2lean.py (Gen/PyFns_Http.lean) on every run and proved equal to the hand model for all inputs (Props/C06T); the CPython primitives the translated code calls (str.replace, indexing, slicing) are modelled in Util/PyPrelude.lean and validated by stream prelude-kernels",
         "urllib.request.parse_http_list, urllib.parse.unquote, str.strip/lower/title, int(), base64 and the regexes werkzeug compiles are hand-modelled CPython primitives, validated by the stream (character classes and literal sets are regenerated from the live objects; regex sources are pinned)",
         "str.lower()/title() are exact for U+0000..U+00FF (generated tables) and identity above; theorems that involve them restrict units / schemes accordingly",
         "integers are unbounded in the model; CPython refuses int<->str conversions beyond 4300 digits (ValueError) - outside every theorem's practical reach and caught as ValueError by every parser",
